@@ -213,7 +213,14 @@ class EnsGroup(object):
         for f in (self.fileP, self.fileF):
             if os.path.exists(f):
                 os.remove(f)
-        self.reference(sc["refops"])
+        try:
+            self.reference(sc["refops"])
+        except RuntimeError:
+            raise
+        except Exception as ex:
+            self.report("raises:%s:reference-run:%s" % (kind, type(ex).__name__), sc, -1,
+                        "%s: the uninterrupted reference run raised %r" % (hdrtxt, ex))
+            return 0
         insts = {}
         o = Inst(make_ens(kind, self.attrs, self.nm, self.fileP, self.seed), None, "orig")
         o.ctx = H.getrng()
